@@ -19,7 +19,7 @@ func propC02(c *Ctx) propInfo {
 	c.hashConstants()
 	c.prunedCellLayout()
 	c.floor("E10.cursor-independence", 2)
-	c.floor("E10.single-hash", 5)
+	c.floor("E10.single-hash", 8)
 	c.floor("E7.preimage", 5)
 	c.floor("E8.depth-limit", 2)
 	c.floor("E7.pruned-accessors", 4)
@@ -107,6 +107,16 @@ func (c *Ctx) hashSingleImplementation() {
 			}
 		}
 		c.check(okv, R, "Cell.hash returns the hash of the top level", f.Pos(), "imc.Hash(maxLevel=3)", "Cell.hash no longer returns the representation hash at the maximum level (3)")
+		// and nothing else: every success return is that computed value (a hash stored in the cell, e.g. one read
+		// from a bag of cells that carries hashes, is attacker-chosen data and must not be handed out as the hash)
+		okAll, nRet := true, 0
+		for _, sp := range successPoints(f, 1) {
+			nRet++
+			if !derivesFrom(retVal(sp.Ret, 0), callResult(bocPath+".immutableCell.Hash"), false) {
+				okAll = false
+			}
+		}
+		c.check(okAll && nRet >= 1, R, "every hash handed out by Cell.hash is computed from the cell's content", f.Pos(), "single success return: imc.Hash(maxLevel)", "Cell.hash can return a value that is not computed by newImmutableCell/immutableCell.Hash (a cached or stored hash): a bag of cells that stores hashes can then make a cell report any hash - a state-init can be made to 'hash' to a victim's address")
 	}
 }
 
